@@ -25,7 +25,7 @@ theorem apply_zero (f : Val) (args : List Val) : apply 0 P w f args = .fail .fue
 theorem eval_var (x : String) (t : Ty) : eval (n + 1) P ρ w (.var x t) = .ok ((lookupEnv ρ x).getD (.fn x)) w := by
   rw [eval]; cases lookupEnv ρ x <;> rfl
 theorem eval_prim (p : Prim) : eval (n + 1) P ρ w (.prim p) = .ok (primVal p) w := by rw [eval]
-theorem eval_tag (i : Nat) (t : Ty) : eval (n + 1) P ρ w (.tag i t) = .ok (.enumV "" i []) w := by rw [eval]
+theorem eval_tag (i : Nat) (t : Ty) : eval (n + 1) P ρ w (.tag i t) = .ok (.enumV (tagTyName t) i []) w := by rw [eval]
 theorem eval_constr (c : Ctor) (t : Ty) (args : List Expr) :
     eval (n + 1) P ρ w (.constr c t args) = (evalList n P ρ w args).andThen (fun vs w =>
       match c with
@@ -111,6 +111,7 @@ theorem eval_bin (op : BinOp) (t : Ty) (l r : Expr) :
     eval (n + 1) P ρ w (.bin op t l r) = (eval n P ρ w l).andThen (fun a w =>
       if scAnd op a then .ok (.bool false) w
       else if scOr op a then .ok (.bool true) w
+      else if logicalNonBool op a then .fail (.stuck "logical operator on a non-boolean") w
       else (eval n P ρ w r).andThen (fun b w =>
         match binop op a b with
         | .ok v => .ok v w
@@ -132,7 +133,10 @@ theorem eval_bin (op : BinOp) (t : Ty) (l r : Expr) :
         · exact absurd rfl (h2 rfl)
         · rfl
       simp only [ha, ho]
-      cases eval n P ρ w1 r <;> rfl
+      by_cases hl : logicalNonBool op a = true
+      · simp [hl]
+      · simp only [hl]
+        cases eval n P ρ w1 r <;> rfl
 theorem eval_call (t : Ty) (f : Expr) (args : List Expr) :
     eval (n + 1) P ρ w (.call t f args) = (eval n P ρ w f).andThen (fun fv w =>
       (evalList n P ρ w args).andThen (fun vs w => apply n P w fv vs)) := by
